@@ -61,7 +61,9 @@ int main(int argc, char **argv) {
   struct KD { const char *name; jwt_alg_t alg; };
   std::vector<KD> kds = {{"oct64", JWT_ALG_HS256}, {"oct64", JWT_ALG_HS512}, {"rsa_2048", JWT_ALG_RS256}, {"rsa_2048", JWT_ALG_PS256}, {"ec_p256", JWT_ALG_ES256}, {"ec_p384", JWT_ALG_ES384}, {"ec_p521", JWT_ALG_ES512}, {"ed25519", JWT_ALG_EDDSA}, {"ed448", JWT_ALG_EDDSA},
                          {"oct48", JWT_ALG_HS384}, {"rsa_2048", JWT_ALG_RS384}, {"rsa_2048", JWT_ALG_PS512}, {"rsa_3072", JWT_ALG_RS512}};
-  if (prov == 0) kds.push_back({"ec_k256", JWT_ALG_ES256K});
+  // also under GnuTLS, which has no secp256k1: the calls then fail - identically one after another and concurrently; whatever the library
+  // does to serve (or refuse) them must not disturb the other threads
+  kds.push_back({"ec_k256", JWT_ALG_ES256K});
   std::string doc = "{\"keys\":[";
   for (size_t i = 0; i < kds.size(); i++) { JwkOpts o; o.priv = true; o.kid = "priv" + std::to_string(i); doc += (i ? "," : "") + jwk_json(pool.get(kds[i].name), o); o.priv = false; o.kid = "pub" + std::to_string(i); doc += "," + jwk_json(pool.get(kds[i].name), o); }
   doc += "]}";
